@@ -2,6 +2,7 @@ import OmplModel.Proofs.Oracle
 import OmplModel.Proofs.PlannerReport
 import OmplModel.Proofs.RRT
 import OmplModel.Proofs.RRTConnect
+import OmplModel.Proofs.RRTReal
 /-!
 # C01 — geometric planners only report solution paths that are real
 
@@ -318,6 +319,61 @@ theorem rrt_problem_definition (cfg : Cfg S D) (mkPath : List S → P) (pd : Pde
 /-- `nearest` always returns a tree node (the tree is never empty inside the loop) -/
 theorem rrt_nearest_in_tree (cfg : Cfg S D) (tree : Array (Node S)) (q : S) (h : 0 < tree.size) :
     nearest cfg tree q < tree.size := nearest_lt cfg tree q h
+
+/-- **Tree states stay in bounds** whenever the space's bounds predicate is preserved by `interpolate` at parameters
+of the unit interval (`ConvexBounds`): given in-bounds samples (every scripted draw satisfies the bounds), every state of
+the tree — hence of every reported path — satisfies the bounds.  Arithmetic enters only through the hypothesis. -/
+theorem rrt_inbounds (cfg : Cfg S D) (UnitT : D → Prop) (hc : ConvexBounds cfg UnitT) (starts : Array S)
+    (script : List (Draw S)) (hdraws : ∀ dr ∈ script, cfg.bounds dr.state = true)
+    (i : Nat) (nd : Node S) (h : (solve cfg starts script).tree[i]? = some nd) : cfg.bounds nd.state = true := by
+  have key : AllInB cfg (solve cfg starts script).tree := by
+    unfold solve
+    simp only
+    split
+    · exact initTree_inB cfg starts
+    · have := loop_inB cfg UnitT hc script ⟨(initTree cfg starts).1, none, none, cfg.inf⟩ (initTree_inB cfg starts) hdraws
+      split <;> exact this
+  exact key i nd h
+
+section RealInstance
+open scoped OmplModel.SpaceInterp.RealNum
+
+/-- **[EX] R^n over ℝ**: with `interpolate`, `satisfiesBounds` (±eps slack), `<`, `/` as coded for
+`RealVectorStateSpace` but over the reals, a non-negative range and in-bounds samples, every tree state satisfies the
+bounds, for every validity predicate, motion validator, distance, goal and script (uses C07's convexity of the as-coded
+bounds predicate).  Left unverified: IEEE rounding inside `interpolate` (C07's F16: a few ulp outside for bounds of
+magnitude ≥ 2). -/
+theorem rrt_inbounds_real (cfg : Cfg (List ℝ) ℝ) (lo hi : List ℝ) (hrv : RvCfg cfg lo hi) (starts : Array (List ℝ))
+    (script : List (Draw (List ℝ))) (hdraws : ∀ dr ∈ script, OmplModel.SpaceInterp.rvInB dr.state lo hi = true)
+    (i : Nat) (nd : Node (List ℝ)) (h : (solve cfg starts script).tree[i]? = some nd) :
+    OmplModel.SpaceInterp.rvInB nd.state lo hi = true := by
+  have := rrt_inbounds cfg _ (rv_convex cfg lo hi hrv) starts script
+    (fun dr hdr => by rw [hrv.bounds]; exact hdraws dr hdr) i nd h
+  rw [hrv.bounds] at this
+  exact this
+
+/-- non-vacuity: an R^1 configuration over ℝ (range 1/4, everything valid, goal 1) satisfies `RvCfg` -/
+noncomputable def realCfg : Cfg (List ℝ) ℝ where
+  dist a b := |a.headD 0 - b.headD 0|
+  interp := OmplModel.SpaceInterp.rvInterp
+  lt a b := decide (a < b)
+  div a b := a / b
+  frac j n := (j : ℝ) / (n : ℝ)
+  inf := 1000
+  zero := 0
+  maxDistance := 1 / 4
+  bounds s := OmplModel.SpaceInterp.rvInB s [0] [1]
+  valid _ := true
+  checkMotion _ _ := true
+  segCount _ _ := 3
+  goalDist s := |s.headD 0 - 1|
+  threshold := 1 / 100
+  addIntermediate := true
+
+example : RvCfg realCfg [0] [1] :=
+  ⟨rfl, rfl, fun _ _ h => of_decide_eq_true h, rfl, rfl, by simp [realCfg]⟩
+
+end RealInstance
 
 /-! ## L2b: RRTConnect -/
 
